@@ -297,6 +297,9 @@ struct Deserializer<'de> {
     // field_name tells deserialize_identifier which field name to process.
     // This field should always be set by set_field_name function.
     field_name: Option<SharedLabel>,
+    // Set together with field_name when the next key stands for a wire field that
+    // the expected type does not have; such a key must match no field identifier.
+    skip_field: bool,
     // Indicates whether to deserialize with IDLValue.
     // It only affects the field id generation in enum type.
     is_untyped: bool,
@@ -321,6 +324,7 @@ impl<'de> Deserializer<'de> {
             expect_type: TypeInner::Unknown.into(),
             gamma: Gamma::default(),
             field_name: None,
+            skip_field: false,
             is_untyped: false,
             config: config.clone(),
             recursion_depth: crate::utils::RecursionDepth::new(),
@@ -521,6 +525,13 @@ impl<'de> Deserializer<'de> {
             unreachable!();
         }
         self.field_name = Some(field);
+    }
+    // A wire field that is absent from the expected type. Struct visitors ignore
+    // the key "_"; it is delivered as bytes so that it cannot be mistaken for an
+    // expected field that is literally named "_".
+    fn set_skipped_field_name(&mut self) {
+        self.set_field_name(Label::Named("_".to_owned()).into());
+        self.skip_field = true;
     }
     // Customize deserailization methods
     // Several deserialize functions will call visit_byte_buf.
@@ -1398,7 +1409,12 @@ impl<'de> de::Deserializer<'de> for &mut Deserializer<'de> {
     where
         V: Visitor<'de>,
     {
+        let skipped = replace(&mut self.skip_field, false);
         match self.field_name.take() {
+            Some(_) if skipped => {
+                self.add_cost(1)?;
+                visitor.visit_bytes(b"_")
+            }
             Some(l) => match l.as_ref() {
                 Label::Named(name) => {
                     self.add_cost(name.len())?;
@@ -1691,7 +1707,7 @@ impl<'de> de::MapAccess<'de> for Compound<'_, 'de> {
                                 self.de.wire_type = TypeInner::Null.into();
                             }
                             Ordering::Greater => {
-                                self.de.set_field_name(Label::Named("_".to_owned()).into());
+                                self.de.set_skipped_field_name();
                                 self.de.wire_type = w.ty.clone();
                                 self.de.expect_type = TypeInner::Reserved.into();
                                 *wire_idx += 1;
@@ -1699,7 +1715,7 @@ impl<'de> de::MapAccess<'de> for Compound<'_, 'de> {
                         }
                     }
                     (None, Some(_)) => {
-                        self.de.set_field_name(Label::Named("_".to_owned()).into());
+                        self.de.set_skipped_field_name();
                         self.de.wire_type = wire_fields[*wire_idx].ty.clone();
                         self.de.expect_type = TypeInner::Reserved.into();
                         *wire_idx += 1;
